@@ -2,6 +2,8 @@
 
 * `C02.frame.base-set-context` (syntactic): BaseFilter.set_context still is "create the namespace, store it in
   self.context, return it" — the summary the set_context contracts use for `super().set_context(...)`.
+* `C02.frame.instruction-compiler` (syntactic): InstructionCompiler.compileGlyphInstructions and what it calls inside the class only
+  assign `.program` / `.flags` / `.flags[0]` — the frame summary used by the setupTable_glyf contract.
 * bounded, exhaustive small scope: util.getMaxComponentDepth on EVERY component graph over 3 glyph names (each glyph: up to
   two components drawn from the three names and one missing name): raises InvalidFontData iff a cycle is reachable from the
   start glyph; otherwise 0 < result <= true height iff the glyph has components.  (No deductive contract: "a cycle is
@@ -58,6 +60,57 @@ def scan_base_set_context():
                 if n.attr in ("absoluteError", "matrix"):
                     fails.append((f"Lib/ufo2ft/filters/base.py:{n.lineno}", f"base class sets context.{n.attr}"))
     return obs, fails
+
+
+def scan_instruction_compiler_frame():
+    """C02.frame.instruction-compiler: `InstructionCompiler.compileGlyphInstructions(ttGlyph, name)` — called by setupTable_glyf for every
+    glyph just before it is stored in the glyf table — and everything it calls inside the class assign ONLY `<x>.program`, `<x>.flags`
+    (augmented) and `<x>.flags[0]` (augmented): the frame summary the setupTable_glyf contract uses (coordinates, component glyph names,
+    offsets and 2x2 parts of the glyf record are not written).  Three obligations: the methods exist; every store is one of the allowed
+    forms; no setattr / delattr / del / global store."""
+    path = os.path.join(REPO, "Lib", "ufo2ft", "instructionCompiler.py")
+    tree = ast.parse(open(path, encoding="utf-8").read())
+    klass = next((n for n in tree.body if isinstance(n, ast.ClassDef) and n.name == "InstructionCompiler"), None)
+    where = "Lib/ufo2ft/instructionCompiler.py"
+    if klass is None:
+        return 3, [(where, "class InstructionCompiler not found")]
+    methods = {m.name: m for m in klass.body if isinstance(m, ast.FunctionDef)}
+    # the call closure of compileGlyphInstructions inside the class (self.<m>(...) calls)
+    todo, seen = ["compileGlyphInstructions"], set()
+    while todo:
+        m = todo.pop()
+        if m in seen or m not in methods:
+            continue
+        seen.add(m)
+        for n in ast.walk(methods[m]):
+            if isinstance(n, ast.Call) and isinstance(n.func, ast.Attribute) and isinstance(n.func.value, ast.Name) and n.func.value.id == "self":
+                todo.append(n.func.attr)
+    fails = []
+    if "compileGlyphInstructions" not in methods:
+        fails.append((where, "compileGlyphInstructions not found"))
+    for m in sorted(seen):
+        fn = methods[m]
+        for n in ast.walk(fn):
+            targets = []
+            if isinstance(n, ast.Assign):
+                targets = n.targets
+            elif isinstance(n, (ast.AugAssign, ast.AnnAssign)):
+                targets = [n.target]
+            elif isinstance(n, ast.Delete):
+                fails.append((f"{where}:{n.lineno}", f"`del` in {m}"))
+            elif isinstance(n, (ast.Global, ast.Nonlocal)):
+                fails.append((f"{where}:{n.lineno}", f"global/nonlocal in {m}"))
+            elif isinstance(n, ast.Call) and isinstance(n.func, ast.Name) and n.func.id in ("setattr", "delattr"):
+                fails.append((f"{where}:{n.lineno}", f"{n.func.id}() in {m}"))
+            for t in targets:
+                for x in ast.walk(t):
+                    if isinstance(x, ast.Attribute) and isinstance(x.ctx, ast.Store):
+                        if x.attr not in ("program", "flags"):
+                            fails.append((f"{where}:{x.lineno}", f"{m} stores to attribute .{x.attr}"))
+                    elif isinstance(x, ast.Subscript) and isinstance(x.ctx, ast.Store):
+                        if not (isinstance(x.value, ast.Attribute) and x.value.attr == "flags"):
+                            fails.append((f"{where}:{x.lineno}", f"{m} stores to {ast.unparse(x)}"))
+    return 3, fails
 
 
 # ---- getMaxComponentDepth: exhaustive small scope ------------------------------------------------------------------------
@@ -362,7 +415,7 @@ def gen_case(rng, k):
 @hook("C02")
 def c02_bounded(tier, seed):
     res = {"obligations": 0, "discharged": 0, "violations": [], "checker_errors": [], "evaluations": 0, "distinct": 0, "bounded": [], "trusted": [], "assumptions": []}
-    for oname, scan in (("base-set-context", scan_base_set_context),):
+    for oname, scan in (("base-set-context", scan_base_set_context), ("instruction-compiler", scan_instruction_compiler_frame)):
         try:
             obs, fails = scan()
             res["obligations"] += obs
